@@ -360,14 +360,25 @@ STRINGS = ['#even   value:', '#a  b', "#it's", '#call foo(x)  ! not a comment', 
            '#end do', '#use mod, only: x', '#1.0e-3   2.5', '#.lt. .GT.']
 
 
+def _real_image(text):
+    """Exact rational image of a printed real; NaN / Infinity / unparsable text become a value image that
+    no machine value equals (a mismatch for the trace spec, not a harness exception)."""
+    try:
+        f = Fraction(float(text))
+    except (ValueError, OverflowError):
+        return ['nonfinite', 0, 1]
+    if abs(f.numerator) > 2 ** 30 or f.denominator > 2 ** 30:
+        return ['nonfinite', 1, 1]        # beyond what TLC integers can hold: cannot equal a modelled value
+    return ['real', f.numerator, f.denominator]
+
+
 def _tok_value(tok):
     """One list-directed output token of the kernel's own PRINT statements."""
     if tok in ('T', 'F'):
         return ['log', 1 if tok == 'T' else 0, 1]
     if re.fullmatch(r'[+-]?\d+', tok):
         return ['int', int(tok), 1]
-    f = Fraction(float(tok))
-    return ['real', f.numerator, f.denominator]
+    return _real_image(tok)
 
 
 def parse_output(text, nruns):
@@ -397,8 +408,7 @@ def parse_output(text, nruns):
                 if tag == 'I':
                     vals.append(['int', int(rest), 1])
                 elif tag == 'R':
-                    f = Fraction(float(rest))
-                    vals.append(['real', f.numerator, f.denominator])
+                    vals.append(_real_image(rest))
                 elif tag == 'L':
                     vals.append(['log', 1 if rest == 'T' else 0, 1])
                 else:
